@@ -256,6 +256,10 @@ func NewEnvFor(t testing.TB, prop, mode string) *Env {
 	switch prop {
 	case "C06":
 		return NewEnvMT(t)
+	case "C17":
+		if mode == "tenants" {
+			return NewEnvMT(t)
+		}
 	case "C05":
 		if mode == "crash" || mode == "isolation" || mode == "crash-wal" || mode == "isolation-wal" {
 			dir, err := os.MkdirTemp("", "verifsim-c05-")
